@@ -68,7 +68,7 @@ def tie_rule(chk, db):
 FIXTURE = os.path.join(D.VERIF, "fixtures", "iter_pos.hpp")
 
 
-META_EXTRA = 'IT3 (returned output cursor is advanced after its last write); IT4 (downward scans visit the first element); IT5 (`if constexpr` alternatives consult the same range ends); TIE-ELEM (min/max/minmax_element replace their holder in exactly the specified orderings); MERGE3 (one step of the merge-like algorithms per ordering of the heads); BISECT (one symbolic step of every bisection loop leaves [first+step+1, first+count) or [first, first+step)); IT4i (index-form downward scans reach index 0); OUTSTEP (an output cursor is stepped only after a write); RESUME (pattern searches move their candidate by one); RUN (typestate none/current/stale of a remembered run start against resets of the run counter, fixed point over the loop); SHIFTRET (positions shift_left / shift_right return in the do-nothing cases, all (n, length) up to 4); PARAM.'
+META_EXTRA = 'IT3 (returned output cursor is advanced after its last write); IT4 (downward scans visit the first element); IT5 (`if constexpr` alternatives consult the same range ends); TIE-ELEM (min/max/minmax_element replace their holder in exactly the specified orderings); MERGE3 (one step of the merge-like algorithms per ordering of the heads); BISECT (one symbolic step of every bisection loop leaves [first+step+1, first+count) or [first, first+step)); IT4i (index-form downward scans reach index 0); OUTSTEP (an output cursor is stepped only after a write); RESUME (pattern searches move their candidate by one); RUN (typestate none/current/stale of a remembered run start against resets of the run counter, fixed point over the loop); END2 (what equal / lexicographical_compare answer per end state of their lockstep scan); SHIFTRET (positions shift_left / shift_right return in the do-nothing cases, all (n, length) up to 4); PARAM.'
 META = (META[0] + " " + META_EXTRA, META[1])
 
 
@@ -100,6 +100,15 @@ def run(chk, tier):
             chk.obligation("RUN", label, ok)
             if not ok:
                 chk.violation("RUN", label, "stale-run-start", "%s: %s" % (astx.loc(f0, s0), msg), {"where": astx.loc(f0)})
+    for f0 in [g for g in db.funcs if g["file"].startswith("_algorithm/") and g.get("body") is not None]:
+        for node, ok, msg in _ITX.check_end2(f0):
+            label = "%s :: `return %s`" % (astx.sig(f0), astx.show(node.get("e"), 50))
+            chk.instance("END2")
+            chk.obligation("END2", label, ok, evaluations=3)
+            if ok is False:
+                chk.violation("END2", label, "end-state-answer", "%s: %s" % (astx.loc(f0, node), msg), {"where": astx.loc(f0)})
+            elif ok is None:
+                chk.unknown_instance("END2", label, msg)
     _ITX.bisect_area(chk, db, ['_algorithm/'])      # BISECT: one bisection step keeps exactly the half that can hold the answer
     funcs = [f for f in db.funcs if (f["file"].startswith("_algorithm/") or f["file"].startswith("_numeric/")) and f.get("kind") == "function"]
     n_scan = n_cursors = 0
